@@ -129,9 +129,12 @@ class _Downloader:
 
 class CountingBlob:
     """Stand-in for an azure BlobClient: download_blob(offset, length).readall(), blob_name."""
-    def __init__(self, path, controller=None):
+    def __init__(self, path, controller=None, latency=0.0):
         self.blob_name = path
         self._path = path
+        # a remote read takes time: with a non-zero latency concurrent requests really overlap (nothing is
+        # decided by the clock; it only widens the window in which unsynchronised workers can interleave)
+        self.latency = latency
         self.log = []
         self.plan = None
         self._n = 0
@@ -155,6 +158,9 @@ class CountingBlob:
             with open(self._path, "rb") as f:
                 f.seek(offset)
                 data = f.read(length)
+            if self.latency:
+                import time
+                time.sleep(self.latency)
             with self.lock:
                 kind = _planned(self.plan, k, offset, length)
             if self.controller is not None:
